@@ -141,18 +141,12 @@ def check_c02(ctx, sess, out):
         if not close(r.lp, e.logprob, 1e-9, 1e-9):
             kind = "emitting" if e.obs_ne == 0 else "non-emitting"
             cls = "C02/logprob/%s/%s" % (model.family, kind)
-            # Root-cause attribution for the listed finding: a second-order (going-back) penalty, a
-            # matcher that has been expanded at least once (widen / extend), the entry reports MORE
-            # than its current chain gives, and the gap is explained by the going-back penalty alone.
-            if model.g and sess.matcher.expand_now > 0 and i >= 2 and e.logprob > r.lp:
-                r2 = rec_from_entry(e)
-                model.g = False
-                try:
-                    model.score_next(None, recs[i - 1], r2)
-                finally:
-                    model.g = True
-                if e.logprob <= r2.lp + 1e-9 * (1 + abs(r2.lp)):
-                    cls = "C02/logprob/second-order-stale-after-expansion"
+            # Root-cause attribution for the listed finding (stale derived entry): the matcher has been
+            # expanded at least once (widen / extend) and the predecessor on the path was touched in a
+            # later round than this entry was derived in (its `delayed` round number is higher): it was
+            # replaced in place or re-postponed by pruning after this entry had been computed from it.
+            if sess.matcher.expand_now > 0 and i >= 1 and e.delayed < lb[i - 1].delayed:
+                cls = "C02/logprob/stale-after-expansion"
             vs.append(V(cls, where + " reported=%r model=%r" % (e.logprob, r.lp), out))
             return vs
         if r.length != e.length:
@@ -224,13 +218,11 @@ def d6_signature(ctx, sess, missing):
     if sq is None or sq[2] is None or sq[2] == float("inf"):
         return False
     loc, radius = sq[1], sq[2]
+    # the finding is defined by the map's own query box
+    lat_b, lon_l, lat_t, lon_r = sess.simmap.box_around_point((loc[0], loc[1]), radius)
     for a, b in missing:
         y, x = ctx.store.loc[a]
-        if ctx.latlon:
-            inside = ctx.geom.dist(loc, (y, x)) < radius * 0.7   # clearly inside any box variant
-        else:
-            inside = abs(y - loc[0]) <= radius and abs(x - loc[1]) <= radius
-        if inside:
+        if lat_b <= y <= lat_t and lon_l <= x <= lon_r:
             return False
     return True
 
